@@ -7,6 +7,10 @@ CLAIMED = {
          "lockset / typestate dataflow + dominator rules over clang CFGs"),
  "C14": ("Static rules over the whole library: the level gate of every AWS_LOGF expansion and of aws_logger_get_conditional admits exactly level <= active; the formatted line is destroyed exactly once on every path (pipeline, foreground, background); lockset + notify + exit-only-when-empty-and-finished + shutdown order for the background channel. Decides the protocol shape and ownership discipline, not per-thread ordering under schedules.",
          "guard-dominance, ownership typestate and lockset dataflow over clang CFGs"),
+ "C20": ("Static protocol rules over source/posix/thread.c and source/thread_shared.c: lockset on the managed-thread globals, no join / re-lock under the lock, the pending-join hand-off (swap-out then self-enqueue in one critical section, predecessor joined), join-all loop shape (done iff count==0 under the lock), per-wrapper join order and use-after-destroy, thread entry (function exactly once, at-exit chain read/release/invoke order, hand-over last), LIFO registration, launch count roll-back. Schedule-independent necessary conditions only.",
+         "lockset / typestate (with correlated-branch pruning) / dominance rules over clang CFGs"),
+ "C17": ("Static rules over source/memtrace.c: order and pairing of track/untrack around the wrapped allocator in all four vtable functions, amount added == size stored, amount subtracted == stored size read before destroy and followed by removal, lockset on both tables (unlock-only-when-held, no lock at exit), level gating of every tracer field, dump reaches no accounting mutation. Decides pairing and lock discipline, not numeric totals over histories.",
+         "ordering/pairing typestate, lockset and guard-dominance rules over clang CFGs"),
 }
 NA_DEFAULT = "check not built yet in this commit (see DESIGN.md section 9 build order)"
 NA = {}
